@@ -21,6 +21,11 @@ def collect(ctx, q):
     r = vlib.run_tlc(ctx, "Lifecycle", "LifecycleAsCodeWG.cfg", workers=8, timeout=900)
     if r.violated:
         scens.append(L.scen_from_cex(r, "LifecycleAsCodeWG.cfg", "deviation:SharedWaitGroup:" + r.violated))
+    r = vlib.run_tlc(ctx, "Lifecycle", "LifecycleAsCodeWriting.cfg", workers=8, timeout=900)
+    if r.violated:
+        sc = L.scen_from_cex(r, "LifecycleAsCodeWriting.cfg", "deviation:WritingOutlivesRun:" + r.violated)
+        sc["reqkinds"] = ["writecontrol", "trigger"]
+        scens.extend([sc] * 3)
     scens += L.witness_scens(ctx, repeat=6 if q else 20)
     n = 40 if q else 400
     scens += L.sim_scens(ctx, "LifecycleSim.cfg", n)
